@@ -10,10 +10,11 @@ LOG=/tmp/seedconfirm.log
 cd /repo
 git worktree remove --force $WT 2>/dev/null
 git worktree add -q --detach $WT HEAD
-for d in /tmp/seedout/a*/C*/; do
+for d in /tmp/seedout/${AG:-a}*/C*/; do
   id=$(basename $d)
   if [ -n "$ONLY" ] && ! echo " $ONLY " | grep -q " $id "; then continue; fi
   agent=$(basename $(dirname $d))
+  name=$id; case $agent in a*) ;; *) name=$id-$agent;; esac
   demo=$(ls $d/zz_seed_*_test.go 2>/dev/null | head -1)
   [ -z "$demo" ] && { echo "$id: no demo" >> $LOG; continue; }
   demoname=$(basename $demo)
@@ -42,20 +43,19 @@ for d in /tmp/seedout/a*/C*/; do
   fi
   failing=$(grep -E "^(--- FAIL|FAIL)" /tmp/sc_suite.txt | head -5 | tr '\n' ';')
   t1=$(date +%s)
-  echo "$id ($agent): demo_without=$without demo_with=$with build=$build suite=$suite [$failing] pkgs=[$pk] $((t1-t0))s" >> $LOG
+  echo "$name ($agent): demo_without=$without demo_with=$with build=$build suite=$suite [$failing] pkgs=[$pk] $((t1-t0))s" >> $LOG
   if [ $without -eq 0 ] && [ $with -ne 0 ] && [ $build -eq 0 ] && [ $suite -eq 0 ]; then
-    mkdir -p $OUT/$id
-    cp $d/patch.diff $OUT/$id/patch.diff
-    cp /tmp/sc_demo.go $OUT/$id/$demoname
-    cp $d/README.md $OUT/$id/README.agent.md
-    python3 - "$id" "$place" "$pk" "$agent" <<'PY'
+    mkdir -p $OUT/$name
+    cp $d/patch.diff $OUT/$name/patch.diff
+    cp /tmp/sc_demo.go $OUT/$name/$demoname
+    cp $d/README.md $OUT/$name/README.agent.md
+    python3 - "$id" "$place" "$pk" "$agent" "$name" <<'PY'
 import json,sys,re
-id,place,pk,agent=sys.argv[1:5]
-readme=open(f'/verif/seeded/{id}/README.agent.md').read()
+id,place,pk,agent,name=sys.argv[1:6]
 json.dump({"property":id,"demo_placement":place,"source":"independent sub-agent "+agent+" (given only the property text and a scratch worktree)",
  "confirmed":{"demo_passes_without_change":True,"demo_fails_with_change":True,"go_build_all":True,"existing_tests_pass_with_change":pk.split(),
   "commands":["go test -vet=off -count=1 -run 'Seed|seed' ./"+place.rsplit('/',1)[0]+"  (without and with patch.diff)","go build ./...","go test -vet=off -count=1 "+pk]},
- "needs_to_manifest":"see README.agent.md (trigger section)","detected_by":"(filled in by tools/run_seeds.sh)"},open(f'/verif/seeded/{id}/meta.json','w'),indent=1)
+ "needs_to_manifest":"see README.agent.md (trigger section)","detected_by":"(filled in by tools/run_seeds.sh)"},open(f'/verif/seeded/{name}/meta.json','w'),indent=1)
 PY
   fi
 done
